@@ -43,6 +43,9 @@ class MtoScn:
         S = Session(w, P.get("transport", "popen"), "main_thread_only")
 
         def main():
+            if P.get("explore_startup"):
+                # the first remote_exec may reach the worker while its main thread is still starting up
+                w.exploring = True
             gw = S.open()
             em = S.proc.execmodel
             S.ctx["main_tid"] = S.worker_proc().main.tid
@@ -193,8 +196,21 @@ def run(tier: str, only=None) -> int:
         harness.run_exploration(rep, PID, name + "/sync", MtoScn, P, ({"ps": 2, "free": 1} if deep or tie else {"ps": 1, "free": 0}) if tier == "quick" else {"ps": 2, "free": 2 if tie else 1}, max_execs=cap)
         if deep or tier == "thorough":
             harness.run_exploration(rep, PID, name + "/stmt", MtoScn, P, {"ps": 0, "pl": 1, "free": 0}, stmt=stmt, max_execs=cap)
+    # the worker's start-up (serve) against the first remote_exec
+    sstmt = harness.stmt_mask(startup_pred)
+    for H in ([("ret", "seq")], [("raise", "seq"), ("ret", "seq")]):
+        name = "mto-startup/" + ",".join(k for k, _ in H)
+        if only and only not in name:
+            continue
+        P = {"hist": H, "explore_startup": True}
+        harness.run_exploration(rep, PID, name + "/sync", MtoScn, P, {"ps": 1, "free": 1} if tier == "quick" else {"ps": 2, "free": 1}, max_execs=cap)
+        harness.run_exploration(rep, PID, name + "/stmt", MtoScn, P, {"ps": 0, "pl": 1, "free": 1}, stmt=sstmt, max_execs=cap)
     return rep.finish()
 
 
+def startup_pred(m, q, l):
+    return stmt_pred(m, q, l) or (m == "gateway_base" and (q.startswith("WorkerGateway.serve") or q.startswith("BaseGateway._initreceive")))
+
+
 def replay(path: str) -> int:
-    return harness.replay_file(path, SCENARIOS, stmt_for=lambda d: harness.stmt_mask(stmt_pred))
+    return harness.replay_file(path, SCENARIOS, stmt_for=lambda d: harness.stmt_mask(startup_pred if "mto-startup" in d.get("sub", "") else stmt_pred))
